@@ -196,8 +196,9 @@ func Plans() map[string]*Plan {
 				crashPart("C08", "S-CRASH-RAND", 9000, 900000, p, RunOpts{}),
 				ioConcPart("C08", 8000, 800000, p, RunOpts{}),
 				concPart("C08", "S-CONC/compaction-storm", 12000, 1200000, stormProfile(), RunOpts{}),
+				timePart("C08", "S-TIME", 6000, 600000, p, RunOpts{}),
 			},
-			Rule: "lock-heavy S-CONC/S-CRASH-RAND (compactions racing Adds and each other), S-CONC/compaction-storm (3-4 processes compacting short ranges of a deep stack side by side); S-IOERR-CONC: the same with 1-3 injected I/O errors (EIO, ENOSPC with a short write, EMFILE, EACCES, EDQUOT at single filesystem calls, addressed by step or by call kind); S-IOERR: every filesystem call of a sampled target operation fails once (one run per call), the process goes on using its handle; lock-tenure monitor on every create/remove/rename of *.lock; non-trivial = a lock acquisition failed with EEXIST or another process ran inside a compaction's unlocked window; distinct = distinct projected event-sequence hash",
+			Rule: "lock-heavy S-CONC/S-CRASH-RAND (compactions racing Adds and each other), S-CONC/compaction-storm (3-4 processes compacting short ranges of a deep stack side by side); S-IOERR-CONC: the same with 1-3 injected I/O errors (EIO, ENOSPC with a short write, EMFILE, EACCES, EDQUOT at single filesystem calls, addressed by step or by call kind); S-IOERR: every filesystem call of a sampled target operation fails once (one run per call), the process goes on using its handle; S-TIME: the lock-heavy workload with slow-process windows and clock jumps of 1-10 s (file modification times follow the simulated clock); lock-tenure monitor on every create/remove/rename of *.lock; non-trivial = a lock acquisition failed with EEXIST or another process ran inside a compaction's unlocked window; distinct = distinct projected event-sequence hash",
 			Nontrivial: func(r *RunResult) bool {
 				return probeAny(r, "lock-contention-listlock", "lock-contention-tablelock", "W1-other-task-ran")
 			}}
@@ -209,6 +210,7 @@ func Plans() map[string]*Plan {
 		p.MinOps, p.MaxOps = 6, 30
 		p.HandlesPerTask = 4
 		p.AutoP = 0.4
+		p.PrefixNamesP = 0.25 // retries whose legality depends on what the refreshed view shows (tombstones of directory names)
 		ps["C09"] = &Plan{Prop: "C09", Level: "exploration",
 			Parts:      []Part{turnPart("C09", "S-TURN/stale-handles", 24000, 2400000, p, RunOpts{})},
 			Rule:       "S-TURN histories over 2-4 handles; non-trivial = a write was attempted through a stale handle; distinct = distinct event hash",
@@ -324,8 +326,9 @@ func Plans() map[string]*Plan {
 				ioEnumPart("C16", 300, 30000),
 				ioConcPart("C16", 6000, 600000, p, RunOpts{}),
 				concPart("C16", "S-CONC/compaction-storm", 8000, 800000, stormProfile(), RunOpts{}),
+				timePart("C16", "S-TIME", 4000, 400000, p, RunOpts{}),
 			},
-			Rule: "S-CONC with failure paths provoked (contended Adds, rejected transactions, lost lock races, empty stacks, Clean/Close in all states), S-CONC/compaction-storm, S-CRASH-RAND, S-TURN; S-IOERR-CONC: the same with 1-3 injected I/O errors (EIO, ENOSPC with a short write, EMFILE, EACCES, EDQUOT at single filesystem calls, addressed by step or by call kind); S-IOERR: every filesystem call of a sampled target operation fails once (one run per call), the process goes on using its handle; residue monitors at every idle point and at quiescence; non-trivial = some operation failed or lost a lock race; distinct = distinct projected event-sequence hash",
+			Rule: "S-CONC with failure paths provoked (contended Adds, rejected transactions, lost lock races, empty stacks, Clean/Close in all states), S-CONC/compaction-storm, S-CRASH-RAND, S-TURN; S-IOERR-CONC: the same with 1-3 injected I/O errors (EIO, ENOSPC with a short write, EMFILE, EACCES, EDQUOT at single filesystem calls, addressed by step or by call kind); S-IOERR: every filesystem call of a sampled target operation fails once (one run per call), the process goes on using its handle; S-TIME: slow-process windows and clock jumps; residue monitors at every idle point and at quiescence; non-trivial = some operation failed or lost a lock race; distinct = distinct projected event-sequence hash",
 			Nontrivial: func(r *RunResult) bool {
 				for k, n := range r.CallCounts {
 					if n > 0 && (hasSuffix(k, ":lockfail") || hasSuffix(k, ":error")) {
